@@ -96,7 +96,10 @@ P_C11_DenialCountedOnce == (IsObs /\ ~Unspecified /\ Reached /\ RulesDeny) => (o
 
 \* the summary is what the agent PUBLISHES: after each denial has been answered, the status file written next carries it
 \* (event {"e":"pub","denials":n,"inFile":m}: n denials answered so far, m occurrences in the status file read afterwards)
-P_C11_PublishedInStatusFile == (o.e = "pub") => (o.inFile = o.denials)
+\* ("unanswered": clients of a burst that gave up waiting for their answer -- the agent may or may not have got as far as
+\*  denying them; without the field every denial was answered and the count is exact)
+PubUnanswered == IF "unanswered" \in DOMAIN o THEN o.unanswered ELSE 0
+P_C11_PublishedInStatusFile == (o.e = "pub") => (o.inFile >= o.denials /\ o.inFile <= o.denials + PubUnanswered)
 
 \* --- C15 ------------------------------------------------------------------------------------
 \* (when the policy lookup fails as well, C01's 500 for that failure may come first: the body is never read)
